@@ -79,8 +79,10 @@ type env struct {
 	channel    *muc.Channel
 	outConn    *ibb.Conn
 	wedged     bool
-	tag        string // workload 2: the library function owning the response
-	readAll    bool   // history consumer reads every token of Current()
+	serveGID   string          // goroutine id of this case's Serve call
+	actionGIDs map[string]bool // goroutine ids of this case's application calls
+	tag        string          // workload 2: the library function owning the response
+	readAll    bool            // history consumer reads every token of Current()
 
 	bg   sync.WaitGroup
 	loop *sess.PeerLoop
@@ -139,7 +141,7 @@ func newEnv(c *core.Case) (*env, error) {
 		return nil, err
 	}
 	e := &env{c: c, p: p, s: p.S, serveDone: make(chan struct{}), sig: make(chan struct{}, 1),
-		obs: map[string]int{}, acts: map[string]*action{}, libIDs: map[string]string{}, fixedIDs: map[string]bool{}}
+		obs: map[string]int{}, acts: map[string]*action{}, actionGIDs: map[string]bool{}, libIDs: map[string]string{}, fixedIDs: map[string]bool{}}
 	e.ctx, e.cancel = context.WithCancel(context.Background())
 
 	e.ibbH = &ibb.Handler{}
@@ -257,6 +259,9 @@ func newEnv(c *core.Case) (*env, error) {
 
 	go func() {
 		defer close(e.serveDone)
+		e.mu.Lock()
+		e.serveGID = goid()
+		e.mu.Unlock()
 		var err error
 		panicked := c.Guard("Serve", func() { err = e.s.Serve(m) })
 		e.mu.Lock()
@@ -338,9 +343,13 @@ func (e *env) wait(cond func() bool, what string, actions bool) int {
 			}
 			continue
 		}
+		// only this case's goroutines count: a child may still hold the parked
+		// Serve goroutine of an earlier case that was reported as wedged
 		relevant := func(p stall.Parked) (inServe, ok bool) {
-			inServe = strings.Contains(p.Stack, "mellium.im/xmpp.(*Session).Serve(")
-			inAction := actions && strings.Contains(p.Stack, "props/c09.(*env).start.") && !strings.Contains(p.Stack, "ibb.(*stanzaWriter).Write")
+			e.mu.Lock()
+			defer e.mu.Unlock()
+			inServe = p.ID == e.serveGID
+			inAction := actions && e.actionGIDs[p.ID] && !strings.Contains(p.Stack, "ibb.(*stanzaWriter).Write")
 			return inServe, inServe || inAction
 		}
 		first := false
@@ -441,6 +450,17 @@ func inputForm(b []byte) string {
 	}
 }
 
+// goid returns the id of the calling goroutine as it appears in stack dumps.
+func goid() string {
+	buf := make([]byte, 64)
+	buf = buf[:runtime.Stack(buf, false)]
+	f := strings.Fields(string(buf))
+	if len(f) >= 2 && f[0] == "goroutine" {
+		return f[1]
+	}
+	return ""
+}
+
 var gHdr = regexp.MustCompile(`(?m)^goroutine \d+ \[([^\],]+)`)
 
 // quiescent reports whether every goroutine of the process except the caller
@@ -502,6 +522,9 @@ func (e *env) start(name, reqID string, f func(ctx context.Context) (bool, error
 			close(a.done)
 			e.poke()
 		}()
+		e.mu.Lock()
+		e.actionGIDs[goid()] = true
+		e.mu.Unlock()
 		e.c.Guard(name, func() { a.ok, a.err = f(e.ctx) })
 	}()
 	return a
